@@ -20,7 +20,7 @@ LEVEL_TEXT = ("PARTIAL by nature. Proved (coq/Props/C20.v): C20_drf — for goro
               "invariant, with per-cell write counters: a Legal API call — copy, AssignNode, transform, fresh builders — never "
               "stores to a cell of a finished node) and C20_allocations_are_local; C20_scenarios_disjoint for the harness's scenario "
               "classes over objects outside the heap model with footprints read off the Go source; three refuted instances with an "
-              "explicit racy schedule each. Exercised, not proved: every scenario runs under the Go race detector (GOMAXPROCS 1, 2, "
+              "explicit racy schedule each (the defaultTypeSystem one for every synchronisation mode of the tree but full locking). Exercised, not proved: every scenario runs under the Go race detector (GOMAXPROCS 1, 2, "
               "16; Gosched injection; 2-8 goroutines) in a child process; its outcome must equal the model's prediction.")
 LEVEL_NOTE = ("NOT modelled: the Go memory model (the model is sequential consistency at cell granularity), compiler and hardware "
               "reordering, the scheduler, sub-cell accesses. The footprints of the basicnode operations are those of the hand-written "
